@@ -284,6 +284,33 @@ def run_both(stream, cases, scratch, xv, env=None, timeout=900, model=True, impl
                 errors.append("%s executor failed on %s (rc=%s): %s" % (kind, os.path.basename(p), rc, err.strip()[-400:]))
                 if kind == "impl":
                     crashed_files.append(p)
+    # a model executor that ran into its time limit (the extracted model is slow on the largest inputs, and slower still on a
+    # loaded machine): the cases it did not reach are run again one per process; a case that still exceeds the limit is
+    # reported as `MODEL-TIMEOUT <id>` -- it is not compared (a slow model is no evidence about the code), and the caller counts it
+    if model:
+        late = []
+        for kind, p, fut in jobs:
+            if kind != "model":
+                continue
+            rc, out, err = fut.result()
+            if rc == -9 and err == "timeout":
+                with open(mfiles[p]) as f:
+                    for line in f:
+                        cid = line.split(" ", 1)[0]
+                        if cid and cid not in mobs:
+                            lp = os.path.join(scratch, "mlone_%s.cases" % cid)
+                            with open(lp, "w") as g:
+                                g.write(line)
+                            late.append((cid, lp))
+        if late:
+            with concurrent.futures.ThreadPoolExecutor(max_workers=NPROC) as ex:
+                futs = [(cid, ex.submit(_run_exec, ["bash", "-c", "ulimit -s unlimited 2>/dev/null; exec \"$0\" \"$1\" \"$2\"", drv, model_stream or stream, lp], None, timeout)) for cid, lp in late]
+            for cid, fut in futs:
+                rc, out, err = fut.result()
+                o, _ = parse_lines(out)
+                mobs.update(o)
+                if cid not in mobs and rc == -9 and err == "timeout":
+                    errors.append("MODEL-TIMEOUT %s" % cid)
     # an implementation executor that died (abort, kill, stack overflow) takes the later cases of its file with it: run the
     # cases that produced nothing one per process, so that the crashing input is named and the others are still judged
     if impl and not prep_impl:
